@@ -198,7 +198,7 @@ static void build_pools() {
 
 // ---------------------------------------------------------------------------------------------------------
 // concrete (label-resolved) actions: what is executed on an emitter / what an entry of the model node list is
-enum ActKind { A_INST, A_PREFIX, A_NEWLABEL, A_BIND, A_EMBLABEL, A_DELTA, A_ALIGN, A_EMBED, A_ARRAY, A_CONSTPOOL, A_POOLDATA, A_COMMENT, A_SECTION, A_GCINST };
+enum ActKind { A_INST, A_PREFIX, A_NEWLABEL, A_BIND, A_EMBLABEL, A_DELTA, A_ALIGN, A_EMBED, A_ARRAY, A_CONSTPOOL, A_POOLDATA, A_COMMENT, A_SECTION, A_GCINST, A_AJMP };
 struct Act {
   int kind = A_COMMENT; int a = 0, b = 0; uint32_t l0 = kInv, l1 = kInv; uint32_t labs[3] = {kInv, kInv, kInv}; Pfx pfx;
   int ident = 0;   // identity of nodes that exist once per builder: 1000+section id, 2000+label id; 0 = anonymous
@@ -217,6 +217,20 @@ static void build_gpool(const std::vector<int>& adds, ConstPool& pool, size_t* l
 static Error emit_gcinst(BaseEmitter* e, int arch, int v, const BaseMem& m) {
   if (arch == AA64) return v == 0 ? e->emit(a64::Inst::kIdLdr, a64::w3, m) : v == 1 ? e->emit(a64::Inst::kIdLdr, a64::x3, m) : e->emit(a64::Inst::kIdLdr_v, a64::q2, m);
   return v == 0 ? e->emit(x86::Inst::kIdMov, x86::ecx, m) : v == 1 ? e->emit(x86::Inst::kIdMovq, x86::xmm1, m) : e->emit(x86::Inst::kIdMovaps, x86::xmm2, m);
+}
+
+// annotated jumps of the Compiler (BaseCompiler::emit_annotated_jump): target slot (0/1 = label L0/L1, -1 = register), prefix
+struct AJmp { int target; Pfx pfx; bool x64_only; bool small; const char* name; };
+static const AJmp kAJmpX86[] = {
+  {0, {0, 0, 0}, false, false, "jmp L0"}, {0, {OPT(kShortForm), 0, 0}, false, true, "short jmp L0"}, {1, {OPT(kLongForm), 0, 0}, false, false, "long jmp L1"},
+  {0, {OPT(kX86_Rex), 0, 0}, true, false, "rex jmp L0"}, {1, {0, 0, 2}, false, false, "jmp L1 ;comment"}, {-1, {0, 0, 0}, false, false, "jmp zax"}, {-1, {OPT(kX86_Rex), 0, 1}, true, false, "rex jmp zax ;comment"}};
+static const AJmp kAJmpA64[] = {{0, {0, 0, 1}, false, true, "b L0 ;comment"}, {1, {OPT(kOverwrite), 0, 0}, false, false, "overwrite b L1"}, {-1, {0, 0, 0}, false, false, "br x1"}};
+static const AJmp& ajmp_of(int arch, int v) { return arch == AA64 ? kAJmpA64[v] : kAJmpX86[v]; }
+static InstId ajmp_inst(int arch, const AJmp& j) { return arch == AA64 ? InstId(j.target < 0 ? a64::Inst::kIdBr : a64::Inst::kIdB) : InstId(x86::Inst::kIdJmp); }
+static Operand ajmp_target(int arch, const AJmp& j, const uint32_t* labs) {
+  if (j.target >= 0) return Label(labs[j.target]);
+  if (arch == AA64) return a64::x1;
+  return arch == AX64 ? Operand(x86::rax) : Operand(x86::eax);
 }
 
 struct Holder {
@@ -267,6 +281,11 @@ static Error exec_act(BaseEmitter* e, Holder& H, int arch, const Act& t) {
     case A_POOLDATA: return e->embed(g_pool_bytes[t.a].data(), g_pool_bytes[t.a].size());
     case A_COMMENT: return e->comment("harness comment line");
     case A_SECTION: return e->section(H.sec[t.a]);
+    case A_AJMP: {   // reference for an annotated jump: the plain jump with the same options
+      const AJmp& j = ajmp_of(arch, t.a);
+      apply_pfx(e, arch, t.pfx); apply_pfx(e, arch, j.pfx);
+      return e->emit(ajmp_inst(arch, j), ajmp_target(arch, j, t.labs));
+    }
     case A_GCINST: {
       if (t.labs[0] == 1) { Label l = e->new_label(); if (l.id() != t.l0) return Error::kInvalidState; }   // call-order reference: the pool label is created here
       apply_pfx(e, arch, t.pfx);
@@ -280,11 +299,11 @@ static Error exec_act(BaseEmitter* e, Holder& H, int arch, const Act& t) {
 // ---------------------------------------------------------------------------------------------------------
 // op alphabet
 enum OpType { O_INST, O_PREFIX, O_NEWLABEL, O_BIND, O_EMBLABEL, O_DELTA, O_ALIGN, O_EMBED, O_ARRAY, O_CONSTPOOL, O_COMMENT, O_SECTION,
-              O_CUR_FIRST, O_CUR_LAST, O_CUR_PREV, O_CUR_NEXT, O_REMOVE, O_REMOVE_PAIR, O_REINS_AFTER, O_REINS_BEFORE, O_REINS_ADD, O_ADD_CPNODE, O_ADD_LABELNODE, O_REMOVE_RANGE, O_GCONST };
-static bool is_edit(int t) { return t >= O_CUR_FIRST && t != O_GCONST; }
+              O_CUR_FIRST, O_CUR_LAST, O_CUR_PREV, O_CUR_NEXT, O_REMOVE, O_REMOVE_PAIR, O_REINS_AFTER, O_REINS_BEFORE, O_REINS_ADD, O_ADD_CPNODE, O_ADD_LABELNODE, O_REMOVE_RANGE, O_GCONST, O_AJMP };
+static bool is_edit(int t) { return t >= O_CUR_FIRST && t != O_GCONST && t != O_AJMP; }
 static const char* op_kind(int t) {
   static const char* n[] = {"inst", "prefix", "new_label", "bind", "embed_label", "embed_label_delta", "align", "embed", "embed_data_array", "embed_const_pool", "comment", "section",
-                            "set_cursor", "set_cursor", "set_cursor", "set_cursor", "remove_node", "remove_nodes", "add_after", "add_before", "add_node", "add_node(ConstPoolNode)", "add_node(LabelNode)", "remove_nodes", "inst(new_const global)"};
+                            "set_cursor", "set_cursor", "set_cursor", "set_cursor", "remove_node", "remove_nodes", "add_after", "add_before", "add_node", "add_node(ConstPoolNode)", "add_node(LabelNode)", "remove_nodes", "inst(new_const global)", "annotated_jump"};
   return n[t];
 }
 struct OpDef { int type; int a, b, c; std::string name; bool small; };
@@ -333,6 +352,9 @@ static void build_ops(int arch) {
   // Compiler only: an instruction whose memory operand is a constant of the global constant pool (the same op twice = the
   // same constant twice); the Builder has no such call, these histories are evaluated on the Compiler alone
   for (int v = 0; v < 3; v++) { snprintf(b, sizeof b, "inst [new_const(global,%s)]", kGConsts[v].name); V.push_back(OpDef{O_GCONST, v, 0, 0, b, v == 1}); }
+  // Compiler only: emit_annotated_jump() (JumpNode with a JumpAnnotation that lists L0 and L1) with each prefix option
+  { int nj = arch == AA64 ? int(sizeof kAJmpA64 / sizeof kAJmpA64[0]) : int(sizeof kAJmpX86 / sizeof kAJmpX86[0]);
+    for (int v = 0; v < nj; v++) { const AJmp& j = ajmp_of(arch, v); if (j.x64_only && arch != AX64) continue; V.push_back(OpDef{O_AJMP, v, 0, 0, std::string("annotated ") + j.name, j.small}); } }
 }
 static int find_op(int arch, const std::string& name) {
   for (size_t i = 0; i < g_ops[arch].size(); i++) if (g_ops[arch][i].name == name) return int(i);
@@ -349,6 +371,7 @@ struct Model {
   uint32_t next_label = 2; uint32_t slot[3] = {0, 1, kInv}; Pfx pending;
   std::vector<int> label_kind = {0, 0};    // by label id: 0 plain LabelNode, 1+p ConstPoolNode with pool p
   bool has_edit = false, has_section = false, became_empty = false, invalid = false;
+  bool compiler_only = false;   // the history uses calls that only a Compiler has
   uint32_t gpool_label = kInv; std::vector<int> gadds;   // global constant pool of the Compiler: label and constants in creation order
   explicit Model(int arch_ = 0) : arch(arch_) { Act s; s.kind = A_SECTION; s.a = 0; s.ident = 1000; list.push_back(s); }
   bool active(int ident) const { for (auto& t : list) if (t.ident == ident) return true; return false; }
@@ -418,7 +441,13 @@ struct Model {
       }
       case O_ADD_CPNODE: { uint32_t l = next_label++; slot[2] = l; label_kind.push_back(1 + op.a); st.lit.b = int(l); st.lit.a = op.a; add_node(label_item(l)); break; }
       case O_ADD_LABELNODE: { uint32_t l = next_label++; slot[2] = l; label_kind.push_back(0); st.lit.b = int(l); add_node(label_item(l)); break; }
+      case O_AJMP: {
+        compiler_only = true;
+        Act t; t.kind = A_AJMP; t.a = op.a; for (int i = 0; i < 3; i++) t.labs[i] = slot[i];
+        st.lit = t; t.pfx = pending; pending = Pfx(); emit_item(t); break;
+      }
       case O_GCONST: {
+        compiler_only = true;
         bool first = gpool_label == kInv;
         if (first) { gpool_label = next_label++; label_kind.push_back(0); }
         gadds.push_back(op.a);
@@ -582,6 +611,17 @@ static void run_x(int arch, int cfg, bool compiler, const std::vector<Step>& tr,
         }
         break;
       }
+      case O_AJMP: {
+        const AJmp& j = ajmp_of(arch, st.lit.a);
+        BaseCompiler* cc = static_cast<BaseCompiler*>(b);
+        JumpAnnotation* ann = cc->new_jump_annotation();
+        if (!ann) { e = Error::kOutOfMemory; break; }
+        for (int k = 0; k < 2 && e == Error::kOk; k++) e = ann->add_label(Label(st.lit.labs[k]));
+        if (e != Error::kOk) break;
+        apply_pfx(b, arch, j.pfx);
+        e = cc->emit_annotated_jump(ajmp_inst(arch, j), ajmp_target(arch, j, st.lit.labs), ann);
+        break;
+      }
       case O_GCONST: {
         const GConst& g = kGConsts[st.lit.a];
         apply_pfx(b, arch, Pfx());
@@ -667,7 +707,7 @@ static CaseResult evaluate(int arch, int cfg, const std::vector<int>& hist) {
   };
   RSnap lit_r; bool have_lit_r = false;
 
-  const int first_which = m.gpool_label != kInv ? 1 : 0;   // new_const() exists on the Compiler only
+  const int first_which = m.compiler_only ? 1 : 0;   // new_const() / emit_annotated_jump() exist on the Compiler only
   for (int which = first_which; which < 2; which++) {
     XOut X; run_x(arch, cfg, which == 1, tr, X);
     bool comp = which == 1;
@@ -691,7 +731,7 @@ static CaseResult evaluate(int arch, int cfg, const std::vector<int>& hist) {
       } else {
         // the op issued to an assembler that is positioned like the builder's cursor
         std::vector<Act> acts(pre.list.begin(), pre.list.begin() + (pre.cur + 1)); size_t at = acts.size();
-        Act t = last.lit; if (t.kind == A_INST || t.kind == A_GCINST) t.pfx = pre.pending;
+        Act t = last.lit; if (t.kind == A_INST || t.kind == A_GCINST || t.kind == A_AJMP) t.pfx = pre.pending;
         if (t.kind == A_GCINST) t.labs[0] = 0;   // all labels exist already in this reference (created up front)
         acts.push_back(t);
         RefOut er; run_ref(arch, cfg, int(m.next_label), acts, er);
